@@ -359,3 +359,6 @@ case("C14", "offsets-scan-short", "VIOLATION", [(TT, "\t\tfor k in range(nt+nq-1
 case("C14", "histogram-skips-target-column", "VIOLATION", [(TT, "\t\tk = nq - i - 1\n\t\tfor j in range(Y.shape[-1]):", "\t\tk = nq - i - 1\n\t\tfor j in range(Y.shape[-1] - 1):")], "LOOPS")
 case("C06", "pairs-loop-short", "VIOLATION", [(D, "for i in trange(n, disable=not verbose):", "for i in trange(n - 1, disable=not verbose):")], "PAIRS")
 case("C05", "C05-raw-flag-inverted", "VIOLATION", [(D, "\t\t\t\tif raw_outputs == False:\n\t\t\t\t\tmultipliers = hypothetical_attributions", "\t\t\t\tif raw_outputs != False:\n\t\t\t\t\tmultipliers = hypothetical_attributions")], "PROCESS")
+case("C04", "C04-maxpool-drops-dilation", "VIOLATION", [(D, "\t\t_, indices = pool_func(module.input, module.kernel_size, module.stride, \n\t\t\tmodule.padding, module.dilation, module.ceil_mode, True)", "\t\t_, indices = pool_func(module.input, module.kernel_size, module.stride,\n\t\t\tmodule.padding, ceil_mode=module.ceil_mode, return_indices=True)")], "MAXPOOL")
+case("C04", "C04-maxpool-keyword-spelling", "HOLDS", [(D, "\t\t_, indices = pool_func(module.input, module.kernel_size, module.stride, \n\t\t\tmodule.padding, module.dilation, module.ceil_mode, True)", "\t\t_, indices = pool_func(module.input, module.kernel_size, module.stride,\n\t\t\tmodule.padding, dilation=module.dilation, ceil_mode=module.ceil_mode, return_indices=True)")])
+case("C06", "args-skip-gather-when-same-length", "VIOLATION", [(D, "tuple([a[Xi].to(device) ", "tuple([(a if len(a) == len(Xi) else a[Xi]).to(device) ")], "R-ARGWIN")
